@@ -201,8 +201,8 @@ def one_world(args):
             w.faulty_until = w.ms + 10 ** 9
             t_black = w.ms
             for i in range(cfg["blackout"]["n"]):
-                if w.ms - t_black > 50000:
-                    break
+                if w.ms - t_black + cfg["blackout"]["gap"] > 39000:
+                    break          # the property's fault prefix lasts at most 40 virtual seconds (and must not starve a side for 60 s)
                 if w.blackout == "up":
                     f = frame_to_server_side(rng, 100); sent_c.append((w.ms, f)); w.offer_to_client(f)
                 else:
